@@ -85,14 +85,23 @@ Example C04_nonvacuous :
     number (getr Zops (fst st) 5) = 126%Z /\ try_derivatives Zops st 4 = None.
 Proof. split; [exact Zops_ring|]. eexists. vm_compute. repeat split; reflexivity. Qed.
 
-(* non-vacuity, real level: ln(y) * (x / y) + x^y at x = 2, y = 3 is inside the domain *)
+(* non-vacuity, real level: w = ln(y) * (x / y) + x^y, then w.unary(sq, dsq) and
+   binary(f, fx, fy) with the caller-supplied functions of the correspondence (entries 0 of
+   user1_table / user2_table), at x = 2, y = 3: inside the domain *)
 Example C04_nonvacuous_real :
-  let prog := [IVar 2%R; IVar 3%R; IBin BDiv 0 1; IUn ULn 1; IBin BMul 3 2; IBin BPow 0 1; IBin BAdd 4 5] in
+  let prog := [IVar 2%R; IVar 3%R; IBin BDiv 0 1; IUn ULn 1; IBin BMul 3 2; IBin BPow 0 1; IBin BAdd 4 5;
+               IUser1 (fun x => x * x)%R (fun x => x + x)%R 6;
+               IUser2 (fun x y => x * y + x)%R (fun _ y => y + 1)%R (fun x _ => x) 7 0] in
   dom prog /\ nth_error prog 0 = Some (IVar 2%R) /\
-  exists d, try_derivatives Rops (run_prog Rops prog) 6 = Some d.
+  exists d, try_derivatives Rops (run_prog Rops prog) 8 = Some d.
 Proof.
   cbv zeta. split; [|split; [reflexivity|eexists; reflexivity]].
-  unfold dom. cbn. repeat split; auto; try apply Rgt_not_eq; apply Rlt_gt; prove_sup0.
+  unfold dom. cbn [dom_from dom_instr].
+  assert (H3 : (0 < 3)%R) by prove_sup0. assert (H2 : (0 < 2)%R) by prove_sup0.
+  split; [exact I|]. split; [exact I|]. split; [cbn; apply Rgt_not_eq; exact H3|].
+  split; [cbn; exact H3|]. split; [exact I|]. split; [cbn; exact H2|]. split; [exact I|].
+  split; [apply (user1_table_derivative 0%Z _ _ (or_introl eq_refl) eq_refl)|].
+  split; [apply (user2_table_derivative 0%Z _ _ _ (or_introl eq_refl) eq_refl)|exact I].
 Qed.
 
 Print Assumptions C04_value.
